@@ -5,6 +5,8 @@ usage: run_seeded.py [name ...] [--tier quick|thorough] [--props C14,C02] [--bot
 Default: a scratch worktree of /repo HEAD is created under /tmp/seedrun-<pid>, each patch is applied there and the
 checks run with Y0_REPO pointing at it (evidence and replays redirected to /tmp), so /repo and the committed evidence
 are never touched.  --inplace applies the patch to /repo itself (git apply / git checkout -- .), as the task brief describes.
+SEEDED_BASE_REPO=<dir> (environment): base the scratch copy on another checkout of y0 (a builder's worktree with its own
+`fix:` commits) instead of /repo; the copy is then a `git clone` under /tmp and /repo is not involved at all.
 --both runs every check twice: as registered (a changed anchored file escalates the generator) and with
 VERIF_NO_ESCALATE=1 (the plain quick tier), and records both in seeded/<name>/last_run.json.
 """
@@ -37,7 +39,11 @@ if inplace:
 else:
     tmp = tempfile.mkdtemp(prefix="seedrun-")
     repo = os.path.join(tmp, "repo")
-    r = sh("git", "-C", "/repo", "worktree", "add", "--detach", repo, "HEAD")
+    base = os.environ.get("SEEDED_BASE_REPO", "/repo")
+    if base != "/repo":
+        r = sh("git", "clone", "-q", "--no-hardlinks", base, repo)
+    else:
+        r = sh("git", "-C", "/repo", "worktree", "add", "--detach", repo, "HEAD")
     if r.returncode != 0:
         sys.exit("cannot create scratch worktree: " + r.stderr)
 env = dict(os.environ)
@@ -82,7 +88,8 @@ try:
         (d / "last_run.json").write_text(json.dumps({"tier": tier, "runs": runs, "caught": caught}, indent=1) + "\n")
         summary.append((name, " ".join(f"{m}={'CAUGHT' if c else 'MISSED'}" for m, c in caught.items())))
 finally:
-    if tmp:
+    if tmp and os.environ.get("SEEDED_BASE_REPO", "/repo") == "/repo":
         sh("git", "-C", "/repo", "worktree", "remove", "--force", repo)
+    if tmp:
         shutil.rmtree(tmp, ignore_errors=True)
 print("\n".join(f"{n}: {s}" for n, s in summary))
